@@ -294,38 +294,19 @@ class Gen(object):
         self.dmap = dmap
         nfn = nfn or rng.randint(2, 5)
         fns = []
-        names = ['FN' + c for c in 'ABCDEFGH']
+        names = ['FN' + c for c in 'ABCDEFGHIJKL']
         rng.shuffle(names)
         gl = {}
         for i in range(nfn):
             fns.append(self.function(names[i], fns, gl))
-        # recursive definitions
-        r = rng.random()
-        if r < 0.35:
-            nm = names[nfn] + rng.choice(['', '!', '#', '%'])
-            p = self.param('!%#')
-            body = rng.choice([
-                ['+', ['FN', nm, [['-', ['V', p], _k(1)]]], _k(1)],
-                ['*', ['V', p], ['FN', nm, [['V', p]]]],
-                ['FN', nm, [['FN', nm, [['V', p]]]]],
-            ])
-            fns.append({'name': nm, 'params': [p], 'body': body, 'kind': 'rec-self'})
-        elif r < 0.6:
-            n1, n2 = names[nfn], names[nfn + 1]
-            p = self.param('!%#')
-            q = self.param('!%#')
-            fns.append({'name': n1, 'params': [p], 'body': ['+', ['FN', n2, [['V', p]]], _k(1)], 'kind': 'rec-mutual'})
-            fns.append({'name': n2, 'params': [q], 'body': ['FN', n1, [['+', ['V', q], _k(2)]]], 'kind': 'rec-mutual'})
-        elif r < 0.7:
-            n1, n2, n3 = names[nfn], names[nfn + 1], names[nfn + 2]
-            p = self.param('!%#')
-            fns.append({'name': n1, 'params': [p], 'body': ['FN', n2, [['V', p]]], 'kind': 'rec-mutual'})
-            fns.append({'name': n2, 'params': [p], 'body': ['-', ['FN', n3, [['V', p]]], _k(1)], 'kind': 'rec-mutual'})
-            fns.append({'name': n3, 'params': [p], 'body': ['*', ['FN', n1, [['V', p]]], _k(2)], 'kind': 'rec-mutual'})
+        # recursive definitions: a cycle of length 1..4 through functions of every signature
+        if rng.random() < 0.75:
+            length = rng.choice([1, 1, 2, 2, 3, 4])
+            fns.extend(self.cycle([n_ for n_ in names[nfn:nfn + length]]))
         # DEFtype change AFTER the definitions, for letters of unsuffixed parameters (never letters of function names)
         deftypes2 = []
         if rng.random() < self.retype:
-            bare = sorted(set(p[0] for f in fns for p in f['params'] if p[-1] not in '%!#$' and p[0] not in 'ABCDEFGH'))
+            bare = sorted(set(p[0] for f in fns for p in f['params'] if p[-1] not in '%!#$' and p[0] not in 'ABCDEFGHIJKL'))
             rng.shuffle(bare)
             for letter in bare[:2]:
                 old = dmap.get(letter, '!')
@@ -370,6 +351,65 @@ class Gen(object):
         self.dmap = dmap2          # calls are typed with the map in force at call time
         case['calls'] = [self.call(case) for _ in range(ncalls)]
         return case
+
+    def cycle(self, names, signatures=None):
+        """
+        Functions names[0] -> names[1] -> ... -> names[0]: each body calls the next one (through arithmetic, string
+        functions or nested in the argument of the call).  Signatures: no parameter, numeric, string, mixed.
+        """
+        rng = self.rng
+        dmap = self.dmap
+        specs = []
+        for i, nm in enumerate(names):
+            sig = signatures[i] if signatures else rng.choice(['none', 'none', 'num', 'str', 'mixed'])
+            params = []
+            want = {'none': '', 'num': 'n', 'str': 's', 'mixed': rng.choice(['ns', 'sn', 'nsn'])}[sig]
+            seen = set()
+            for c in want:
+                while True:
+                    p = self.param('$' if c == 's' else '%!#')
+                    if full_name(p, dmap) not in seen:
+                        break
+                seen.add(full_name(p, dmap))
+                params.append(p)
+            rtype = '$' if (sig == 'str' and rng.random() < 0.6) else rng.choice(['', '!', '#', '%'])
+            if rtype == '' and sigil_of(nm, dmap) == '$':
+                rtype = '#'
+            specs.append({'name': nm + rtype, 'params': params})
+        out = []
+        for i, sp in enumerate(specs):
+            nxt = specs[(i + 1) % len(specs)]
+            nums = [p for p in sp['params'] if sigil_of(p, dmap) != '$']
+            strs = [p for p in sp['params'] if sigil_of(p, dmap) == '$']
+            args = []
+            for q in nxt['params']:
+                if sigil_of(q, dmap) == '$':
+                    args.append(['V', rng.choice(strs)] if strs and rng.random() < 0.6 else _ks(rng.choice(ASTRINGS)))
+                else:
+                    args.append(['-', ['V', rng.choice(nums)], _k(1)] if nums and rng.random() < 0.6 else _k(rng.choice([1, 2, 5])))
+            callnode = ['FN', nxt['name'], args]
+            if len(specs) == 1 and args and rng.random() < 0.3:
+                # the recursive call sits in the ARGUMENT of the recursive call
+                k = rng.randrange(len(args))
+                if sigil_of(nxt['params'][k], dmap) == sigil_of(nxt['name'], dmap) or \
+                        (sigil_of(nxt['params'][k], dmap) != '$' and sigil_of(nxt['name'], dmap) != '$'):
+                    inner = list(args)
+                    args2 = list(args)
+                    args2[k] = ['FN', nxt['name'], inner]
+                    callnode = ['FN', nxt['name'], args2]
+            me_str = sigil_of(sp['name'], dmap) == '$'
+            nx_str = sigil_of(nxt['name'], dmap) == '$'
+            if me_str and nx_str:
+                body = rng.choice([callnode, ['CAT', callnode, _ks('x')], ['LEFT', callnode, _k(2)]])
+            elif me_str:
+                body = ['CAT', ['SPACE', callnode], _ks('')]
+            elif nx_str:
+                body = ['+', ['LEN', callnode], _k(1)]
+            else:
+                body = rng.choice([callnode, ['+', callnode, _k(1)], ['*', _k(2), callnode], ['-', _k(0), ['PAREN', callnode]]])
+            out.append({'name': sp['name'], 'params': sp['params'], 'body': body,
+                        'kind': 'rec-self' if len(specs) == 1 else 'rec-mutual'})
+        return out
 
     def param(self, types, explicit=False):
         rng = self.rng
@@ -502,7 +542,8 @@ class Gen(object):
         args = []
         bad = None
         if f['kind'].startswith('rec'):
-            return {'fn': f['name'], 'args': [_k(rng.choice([1, 3, 7]))], 'form': rng.choice(['eval', 'print', 'let'])}
+            args = [_ks(rng.choice(['s', 'arg'])) if t == '$' else _k(rng.choice([1, 3, 7])) for t in ptypes]
+            return {'fn': f['name'], 'args': args, 'form': rng.choice(['eval', 'print', 'let', 'nested', 'nested'])}
         if ptypes and f['kind'] in ('value', 'proj') and rng.random() < 0.25:
             bad = rng.randrange(len(ptypes))
         for i, t in enumerate(ptypes):
@@ -608,3 +649,9 @@ def call_text(call):
     if not call['args']:
         return call['fn']
     return '%s(%s)' % (call['fn'], ','.join(body_text(a) for a in call['args']))
+
+
+def nested_text(call, is_string):
+    """The call as an operand inside a larger expression."""
+    t = call_text(call)
+    return ('"a"+%s+"b"' % t) if is_string else ('1+%s*2' % t)
